@@ -459,11 +459,76 @@ func main() {
 						}
 					}
 				}
+				if r.Intn(2) == 0 {
+					// only replica 1 is asked for keys nobody ever wrote: reading is not writing, the hashes below still agree
+					for i := 0; i < 1+r.Intn(3); i++ {
+						k := []byte(fmt.Sprintf("never-written-%d", r.Intn(5)))
+						got := ms[1].lookup(k)
+						op := J{"op": "lookup", "id": 1, "key": hex.EncodeToString(k)}
+						ops = append(ops, op)
+						emit(op, hex.EncodeToString(got))
+						if len(got) != 0 {
+							fail("lookup_is_last_write", "lookup-not-last-write", fmt.Sprintf("%s replica 1: lookup of the never written %q returns %q", kind, k, got))
+						}
+					}
+					run.Count("c15:absent_key_lookups_on_one_replica")
+				}
+				if prepCtx == nil && r.Intn(4) == 0 {
+					// replica 1 falls behind: replica 0 alone applies some batches while replica 1 keeps answering hash
+					// requests, then replica 1 (used, not fresh) installs replica 0's snapshot, which is ahead of it, and is
+					// asked for its hash and contents before anything else is applied
+					for b := 0; b < 1+r.Intn(3) && !dead; b++ {
+						nb := 1 + r.Intn(4)
+						cmds := [][]byte{}
+						hexes := []string{}
+						for i := 0; i < nb; i++ {
+							k, v := keys[r.Intn(len(keys))], vals[r.Intn(len(vals))]
+							c := enc(k, v)
+							cmds = append(cmds, c)
+							hexes = append(hexes, hex.EncodeToString(c))
+							ref[string(k)] = v
+						}
+						op := J{"op": "update", "id": 0, "idx": idx, "cmds": hexes, "pooled": true}
+						ops = append(ops, op)
+						if guard(func() { ms[0].update(idx, cmds) }) {
+							emit(op, "panic")
+							fail("update_total", "update-crash", kind+": a well-formed update batch crashed the machine")
+							dead = true
+							break
+						}
+						emit(op, "ok")
+						idx += uint64(nb)
+						hop := J{"op": "hash", "id": 1}
+						ops = append(ops, hop)
+						emit(hop, fmt.Sprintf("class %d", class(kind, ms[1].hash())))
+					}
+					if dead {
+						break
+					}
+					snap := ms[0].snapshot()
+					op := J{"op": "snap", "id": 0, "to": 1}
+					ops = append(ops, op)
+					if guard(func() { ms[1].recover(snap) }) {
+						emit(op, "panic")
+						fail("snapshot_restores_exactly", "recover-crash", kind+": installing a newer snapshot crashed the replica that had fallen behind")
+						dead = true
+						break
+					}
+					emit(op, "ok")
+					run.Count("c15:lagging_replica_caught_up_by_snapshot")
+				}
 				h0, h1 := ms[0].hash(), ms[1].hash()
 				emit(J{"op": "hash", "id": 0}, fmt.Sprintf("class %d", class(kind, h0)))
 				emit(J{"op": "hash", "id": 1}, fmt.Sprintf("class %d", class(kind, h1)))
 				if h0 != h1 {
 					fail("hash_function_of_updates", "hash-differs", kind+": two replicas that applied the same updates (one of them with lookups / sync / snapshot activity / restart / restored from the other's snapshot) have different hashes")
+				}
+				for _, k := range keys {
+					got := ms[1].lookup(k)
+					emit(J{"op": "lookup", "id": 1, "key": hex.EncodeToString(k)}, hex.EncodeToString(got))
+					if want := ref[string(k)]; !bytes.Equal(got, want) {
+						fail("lookup_is_last_write", "lookup-not-last-write", fmt.Sprintf("%s replica 1: lookup of %q returns %q, last value written is %q", kind, k, got, want))
+					}
 				}
 			}
 			run.Nontrivial(fmt.Sprintf("%s/%d", kind, seqNo))
